@@ -231,6 +231,29 @@ Example c10_example :
   exists T, pg_tree 100 cs = Ok T /\ length (ct_nodes T) = 4 /\ ct_make_det T = true.
 Proof. eexists. split; [vm_compute; reflexivity|split; reflexivity]. Qed.
 
+(** what the property states — faithfulness, valid indices, which indices occur — does not
+    depend on the make_det hint of a tree: a tree that differs from the modelled one only in
+    that hint (what the comparison of `tree` cases establishes of the implementation's
+    decomposition) has the same properties *)
+Theorem c10_statement_independent_of_make_det_hint :
+  forall (C : Type) (v : C -> bool) (T : ctree C) (b : bool) (cs : list C) (len : nat),
+    (faithful v (set_make_det T b) cs <-> faithful v T cs)
+    /\ (valid_indices (set_make_det T b) len <-> valid_indices T len)
+    /\ (forall i, in_tree (set_make_det T b) i <-> in_tree T i).
+Proof.
+  intros C v T b cs len.
+  assert (Hl : forall i n, labelled (set_make_det T b) i n <-> labelled T i n) by (intros; reflexivity).
+  assert (Hi : forall i, in_tree (set_make_det T b) i <-> in_tree T i) by (intros; reflexivity).
+  assert (Hr : forall n, treach v (set_make_det T b) n <-> treach v T n).
+  { intros n. split; induction 1 as [|n0 nd c m Hr IH Hn Hc Hv]; try constructor.
+    - eapply tr_child; eauto.
+    - eapply (tr_child v (set_make_det T b)); eauto. }
+  split; [|split; [reflexivity|exact Hi]].
+  unfold faithful. split; intros F i Hin.
+  - rewrite <- (F i Hin). split; intros [n [R L]]; exists n; split; auto; now apply Hr.
+  - rewrite <- (F i Hin). split; intros [n [R L]]; exists n; split; auto; now apply Hr.
+Qed.
+
 Print Assumptions c10_with_children.
 Print Assumptions c10_with_pairwise_mutex.
 Print Assumptions c10_with_transitive_mutex.
@@ -248,3 +271,4 @@ Print Assumptions c10_with_powerset_det_faithful.
 Print Assumptions c10_pg_ne_tree_det_faithful.
 Print Assumptions c10_string_tree_det_faithful.
 Print Assumptions c10_matrix_tree_det_faithful.
+Print Assumptions c10_statement_independent_of_make_det_hint.
